@@ -8,3 +8,9 @@ for _p in ("C06", "C07", "C08", "C09"):
 import checks_dial
 CHECKS["C11"] = checks_dial.c11
 CHECKS["C10"] = checks_dial.c10
+
+import checks_vec
+CHECKS["C13"] = checks_vec.c13
+CHECKS["C14"] = checks_vec.c14
+CHECKS["C15"] = checks_vec.c15
+CHECKS["C16"] = checks_vec.c16
